@@ -155,6 +155,19 @@ fn seeds(seed: u64, thorough: bool) -> Vec<Vec<u8>> {
         v.push((0..l).map(|k| (k % 256) as u8).collect());
         v.push(rng.bytes(l));
     }
+    // single-byte variants of one 100-byte seed (every position) and of its length
+    let base: Vec<u8> = (0..100u32).map(|k| (k * 7 % 251) as u8).collect();
+    for i in 0..base.len() {
+        let mut s = base.clone();
+        s[i] ^= 0x40;
+        v.push(s);
+    }
+    for extra in 1..=3 {
+        let mut s = base.clone();
+        s.extend(vec![0u8; extra]);
+        v.push(s);
+    }
+    v.push(base);
     let mut seen = BTreeSet::new();
     v.retain(|s| seen.insert(s.clone()));
     v
@@ -215,7 +228,18 @@ impl Prop for C14 {
             }
         }
         // unseeded identities: relations, canonical range, pairwise distinct
-        let n_unseeded = if q { 64 } else { 1024 };
+        // interleaved and repeated calls: the N-th answer equals the first
+        for s in ss.iter().step_by((ss.len() / 5).max(1)).take(5) {
+            let first = guard(|| (seeded_keygen(s), extended_seeded_keygen(s)));
+            for round in 0..40 {
+                let again = guard(|| { let e = extended_seeded_keygen(s); let k = seeded_keygen(s); (k, e) });
+                if again != first {
+                    findings.report(Discrepancy { key: "C14/seeded_keygen/not-repeatable".into(), case: json!({"kind":"seed","hex":hex(s)}), detail: format!("call number {} (simple and extended variants interleaved) differs from the first", round + 2) });
+                    break;
+                }
+            }
+        }
+        let n_unseeded = if q { 1024 } else { 8192 };
         let idx: Vec<usize> = (0..n_unseeded).collect();
         let ures = par_map(&idx, 4, |_, k| self.unseeded(k % 3));
         let mut all_ids = BTreeSet::new();
